@@ -1,6 +1,7 @@
 package main
 
 import (
+	"strings"
 	"fmt"
 	"math"
 	"time"
@@ -63,6 +64,7 @@ func newC20heap() *c20heap {
 		h.elems[n] = variants.VariantFromInteger(100 + i)
 		h.names[h.elems[n]] = n
 	}
+	h.elems["nilptr"] = nil // a position the caller left unset
 	return h
 }
 
@@ -135,6 +137,9 @@ func execC20(seg []Ev) []Ev {
 			continue
 		}
 		e := Ev{"op": op}
+		for _, k := range []string{"v", "w", "i", "n"} {
+			_ = k
+		}
 		for _, k := range []string{"v", "w", "i", "n"} {
 			if x, ok := in[k]; ok {
 				e[k] = toInt(x)
@@ -238,6 +243,13 @@ func execC20(seg []Ev) []Ev {
 					L = append(L, h.elems[n])
 				}
 				h.lists[toStr(in["list"])] = L
+			case "listappend": // the caller appends to its own list (into the spare capacity of its array when there is some)
+				h.lists[toStr(in["list"])] = append(h.lists[toStr(in["list"])], h.elems[toStr(in["e"])])
+			case "listcut": // the caller shortens its own list, keeping the array
+				L := h.lists[toStr(in["list"])]
+				if n := toInt(in["n"]); n <= len(L) {
+					h.lists[toStr(in["list"])] = L[:n]
+				}
 			case "listput":
 				L := h.lists[toStr(in["list"])]
 				if i := toInt(in["i"]); i < len(L) {
@@ -288,6 +300,10 @@ func hostCases() []hostCase {
 	for _, v := range []float64{0, 1.5, -2.25, math.MaxFloat64, math.SmallestNonzeroFloat64, math.Inf(-1), 0.1} {
 		cs = append(cs, hostCase{"float64", v})
 	}
+	for _, v := range []string{strings.Repeat("é", 32), strings.Repeat("a", 64), strings.Repeat("a", 65), strings.Repeat("日本", 50), "\xff", "a\xffb", strings.Repeat("a\xffb", 30),
+		strings.Repeat("\xed\xa0\x80", 30), "\ufffd", "\ufffe\uffff", "a\x00b", strings.Repeat("\x00", 70), strings.Repeat("\U0001f600", 20), strings.Repeat("x", 4097), "\xc3", strings.Repeat("é", 40) + "\xc3"} {
+		cs = append(cs, hostCase{"string", v})
+	}
 	cs = append(cs, hostCase{"bool", true}, hostCase{"bool", false}, hostCase{"string", ""}, hostCase{"string", "héllo\n"},
 		hostCase{"time.Time", t0}, hostCase{"time.Time", time.Time{}}, hostCase{"time.Duration", time.Duration(0)},
 		hostCase{"time.Duration", 90 * time.Minute}, hostCase{"time.Duration", -time.Nanosecond},
@@ -310,6 +326,8 @@ func canon(v any) string {
 		return s + "]"
 	case float32:
 		return fmt.Sprintf("%v", float64(x))
+	case string:
+		return fmt.Sprintf("bytes:%x", []byte(x)) // byte for byte (the trace format would repair ill-formed text)
 	}
 	return fmt.Sprintf("%v", v)
 }
@@ -324,6 +342,66 @@ func execHost(in Ev) Ev {
 		var v *variants.Variant
 		if how == "NewVariant" {
 			v = variants.NewVariant(c.value)
+		} else if how == "typed" || how == "setter" {
+			v = variants.EmptyVariant()
+			switch x := c.value.(type) {
+			case int:
+				if how == "typed" {
+					v = variants.VariantFromInteger(x)
+				} else {
+					v.SetAsInteger(x)
+				}
+			case int64:
+				if how == "typed" {
+					v = variants.VariantFromLong(x)
+				} else {
+					v.SetAsLong(x)
+				}
+			case float32:
+				if how == "typed" {
+					v = variants.VariantFromFloat(x)
+				} else {
+					v.SetAsFloat(x)
+				}
+			case float64:
+				if how == "typed" {
+					v = variants.VariantFromDouble(x)
+				} else {
+					v.SetAsDouble(x)
+				}
+			case bool:
+				if how == "typed" {
+					v = variants.VariantFromBoolean(x)
+				} else {
+					v.SetAsBoolean(x)
+				}
+			case string:
+				if how == "typed" {
+					v = variants.VariantFromString(x)
+				} else {
+					v.SetAsString(x)
+				}
+			case time.Time:
+				if how == "typed" {
+					v = variants.VariantFromDateTime(x)
+				} else {
+					v.SetAsDateTime(x)
+				}
+			case time.Duration:
+				if how == "typed" {
+					v = variants.VariantFromTimeSpan(x)
+				} else {
+					v.SetAsTimeSpan(x)
+				}
+			case []*variants.Variant:
+				if how == "typed" {
+					v = variants.VariantFromArray(x)
+				} else {
+					v.SetAsArray(x)
+				}
+			default:
+				v.SetAsObject(c.value)
+			}
 		} else {
 			v = variants.EmptyVariant()
 			v.SetAsObject(c.value)
@@ -371,7 +449,7 @@ func execHost(in Ev) Ev {
 func genC20(g *Gen) {
 	r := g.Rand()
 	for i := range hostCases() {
-		for _, how := range []string{"NewVariant", "SetAsObject"} {
+		for _, how := range []string{"NewVariant", "SetAsObject", "typed", "setter"} {
 			g.Run("host values of every kind", []Ev{{"op": "host", "index": i, "how": how}})
 		}
 	}
@@ -388,6 +466,7 @@ func genC20(g *Gen) {
 		ops = append(ops, Ev{"op": "copy", "w": 2, "v": 1, "how": how}, Ev{"op": "copy", "w": 1, "v": 2, "how": how})
 	}
 	ops = append(ops, Ev{"op": "listset", "list": "L1", "elems": []any{"e1", "e2"}}, Ev{"op": "listput", "list": "L1", "i": 0, "e": "e5"},
+		Ev{"op": "listcut", "list": "L1", "n": 0}, Ev{"op": "listappend", "list": "L1", "e": "e4"}, Ev{"op": "listset", "list": "L1", "elems": []any{"nilptr", "e1"}},
 		Ev{"op": "mutelem", "v": 1, "i": 2}, Ev{"op": "mutelem", "v": 2, "i": 2})
 	depth := g.Pick(3, 4)
 	idx := make([]int, depth)
@@ -451,14 +530,18 @@ func genC20(g *Gen) {
 			case 7:
 				var e []any
 				for q := r.Intn(4); q > 0; q-- {
-					e = append(e, els[r.Intn(5)])
+					e = append(e, append(els, "nilptr")[r.Intn(6)])
 				}
 				if e == nil {
 					e = []any{}
 				}
 				seg = append(seg, Ev{"op": "listset", "list": L, "elems": e})
 			default:
-				if r.Intn(3) == 0 {
+				if x := r.Intn(6); x == 0 {
+					seg = append(seg, Ev{"op": "listappend", "list": L, "e": append(els, "nilptr")[r.Intn(6)]})
+				} else if x == 1 {
+					seg = append(seg, Ev{"op": "listcut", "list": L, "n": r.Intn(3)})
+				} else if r.Intn(3) == 0 {
 					seg = append(seg, Ev{"op": "clear", "v": v})
 				} else {
 					seg = append(seg, Ev{"op": "listput", "list": L, "i": r.Intn(3), "e": els[r.Intn(5)]})
